@@ -232,7 +232,7 @@ def check(case, ctx):
         return check_dae_shooting(case, ctx)
     spA = copy.deepcopy(case["spec"])
     m = spA["method"]
-    if any(c04.degenerate(c) for c in spA["constraints"]):
+    if any(c04.degenerate(c, {d["name"] for d in spA["params"]}) for c in spA["constraints"]):
         ctx.count("shifted_operand_cancels_symbolically")
         return []
     N, M = m["N"], m["M"]
